@@ -9,19 +9,38 @@ type envModel struct {
 	lastNow *Term
 	clk     *Term
 	sleeps  []value
-	files   map[string]*fileState
-	fsLog   []string
+	files      map[string]*fsFile
+	fsLog      []string
+	readFaults map[string][]int
+	writePlans map[string][]writePlan
+	reads      map[string]int
+	writes     map[string]int
+	tokenOf    map[*value]tokenRef
+	nextDoc    int
+	decoded    int
 }
 
-type fileState struct {
-	data   []value
-	exists bool
-}
 
 func newEnvModel(i *interpreter) *envModel {
-	return &envModel{i: i, files: map[string]*fileState{}}
+	return &envModel{i: i, files: map[string]*fsFile{}, readFaults: map[string][]int{}, writePlans: map[string][]writePlan{},
+		reads: map[string]int{}, writes: map[string]int{}, tokenOf: map[*value]tokenRef{}}
 }
 
 // patchGlobals sets globals of zero-initialised packages that code reads.
 func (i *interpreter) patchGlobals(pkg *ssa.Package) {
+	if pkg.Pkg.Path() == "os" {
+		// os.ErrNotExist etc. alias the io/fs sentinels
+		fsp := i.prog.ImportedPackage("io/fs")
+		if fsp == nil {
+			return
+		}
+		i.ensureInit(fsp)
+		for _, n := range []string{"ErrInvalid", "ErrPermission", "ErrExist", "ErrNotExist", "ErrClosed"} {
+			og, ok1 := pkg.Members[n].(*ssa.Global)
+			fg, ok2 := fsp.Members[n].(*ssa.Global)
+			if ok1 && ok2 {
+				*i.shared[og] = *i.shared[fg]
+			}
+		}
+	}
 }
